@@ -13,7 +13,7 @@
  *   fin r / exit r                                      ABT_sched_finish / ABT_sched_exit
  *   sizes are made by pushing work units that are never run; num_blocked / num_scheds / access / request / used are
  *   stored directly.
- * (ii) API histories (see Driver/Stop.lean for the ops); after every call ` | pools P=num_scheds.. | scheds K:used..`
+ * (ii) API histories (see Driver/Stop.lean for the ops); after every call ` | pools P=num_scheds.. | scheds K:used:request..`
  *   of every live pool / scheduler.  The harness learns that the runtime freed a pool / scheduler object from the
  *   object's own free callback (wrapped at registration), never by looking at freed memory.
  * (iii) end-to-end programs with a watchdog: exit 0 = property holds, 1 = join returned too early, 3 = join hangs. */
@@ -141,7 +141,8 @@ static void dump(const char *status)
     printf(" | scheds");
     for (i = 0; i < NSCHED; i++)
         if (sched_live[i])
-            printf(" %d:%s", i, used_name(ABTI_sched_get_ptr(sched[i])->used));
+            printf(" %d:%s:%u", i, used_name(ABTI_sched_get_ptr(sched[i])->used),
+                   (unsigned)ABTD_atomic_acquire_load_uint32(&ABTI_sched_get_ptr(sched[i])->request));
     printf("\n");
 }
 
@@ -1075,6 +1076,19 @@ static int e2e_blocked(int pd, int kd, int ac, int via, int cycles)
         ra.times = cycles;
         CK(ABT_thread_create(p, replace_fn, &ra, ABT_THREAD_ATTR_NULL, &t));
         CK(ABT_thread_free(&t));
+    } else if (via == 4) {
+        /* a user-owned scheduler over the pool served earlier streams (joined and freed) and is used again */
+        ABT_sched s;
+        ABT_sched_config cfg = mk_config(0);
+        CK(ABT_sched_create_basic(predefs[pd], 1, &p, cfg, &s));
+        CK(ABT_sched_config_free(&cfg));
+        for (i = 0; i < cycles; i++) {
+            CK(ABT_xstream_create(s, &es));
+            if (i & 1)
+                CK(ABT_xstream_join(es));
+            CK(ABT_xstream_free(&es));
+        }
+        CK(ABT_xstream_create(s, &es));
     } else {
         /* control: first use of the pool */
         CK(ABT_xstream_create_basic(predefs[pd], 1, &p, ABT_SCHED_CONFIG_NULL, &es));
